@@ -26,6 +26,10 @@ FRACS = ["", "", "", ".5", ".999999999", ".000000001", ".0", ".123"]
 STYLES = ["T_Z", "T_Z", "T_Z", "t", "z", "space"]
 
 
+WEST = ["EST5", "<-11>11", "PST8PDT"]
+EAST = ["<+09>-9", "<+14>-14", "CET-1CEST"]
+
+
 def notation(T, frac, offset, style):
     """text for the instant T (aware UTC datetime, whole second) + frac, in the given offset notation"""
     if offset is None:
@@ -81,7 +85,7 @@ def build_case(rng, W, level, delta_s, offset, frac, style, now):
     return {"level": level, "T": T, "offset": offset, "frac": frac, "style": style}
 
 
-def shard(binpath, seed, sh, plans):
+def shard(binpath, seed, sh, plans, tz=None):
     rng = common.rng_for(seed, PROP, sh)
     W = scen.World(binpath)
     res = common.Result()
@@ -130,13 +134,19 @@ def shard(binpath, seed, sh, plans):
                 "frac": bool(frac), "style": style,
                 "delta_s": delta if isinstance(delta, str) else round(delta, 1)}
         cases.append(scen.verify_case(wires[node["req"]], [[W.kid("ed0"), W.pub("ed0")]], files, meta=meta, reps=1))
-    obs = common.run_batch(binpath, cases)
+    # the verifying process may run in any local time zone: the verdict is about instants, not wall-clock readings
+    import os
+    obs = common.run_batch(binpath, cases, env=dict(os.environ, TZ=tz) if tz else None)
     for c, o in zip(cases, obs):
         m = c["meta"]
+        if tz:
+            m["tz"] = tz
         out = judge(c, o, res)
         if out is None:
             continue
         cls = [f"{m['level']}:{x}" for x in out] + [f"notation:{m['notation_class']}:{x}" for x in out]
+        if tz:
+            cls += [f"process_time_zone:{'west' if tz in WEST else 'east'}_of_utc:{x}" for x in out]
         if m["frac"]:
             cls += [f"fractional:{x}" for x in out]
         if m["style"] != "T_Z":
@@ -233,6 +243,11 @@ def main(ctx):
     res = common.Result()
     for p in common.pmap(shard, [(ctx.bin, ctx.seed, s, plans[s::n]) for s in range(n)]):
         res.merge(p)
+    # the same sweep (coarser) with the verifying process in time zones west and east of UTC
+    tzplans = [(lv, d, off, "", "T_Z") for lv in ("top", "sub") for d in (-13 * 3600, -10 * 3600, -4 * 3600, -3600, -1800, -61, -10, 30, 60, 1800, 3600, 4 * 3600, 10 * 3600, 15 * 3600)
+               for off in (None, "+05:30", "-08:00")]
+    for p in common.pmap(shard, [(ctx.bin, ctx.seed, 100 + i, tzplans, tz) for i, tz in enumerate(WEST + EAST)]):
+        res.merge(p)
     for p in common.pmap(history_shard, [(ctx.bin, ctx.seed, s) for s in range(4 if not ctx.thorough else n)]):
         res.merge(p)
     res.extras["exhaustive_subspaces"] = [f"{len(OFFSETS)} offset notations x {{-1h,+1h,-40s,+40s}} x {{top-level, delegated}}"]
@@ -241,7 +256,8 @@ def main(ctx):
     req = ["top:expired", "top:unexpired_ok", "sub:expired", "sub:unexpired_ok", "notation:offset:expired",
            "notation:offset:unexpired_ok", "notation:zero-offset:expired", "notation:Z:expired", "notation:Z:unexpired_ok",
            "fractional:expired", "fractional:unexpired_ok", "history:after:bad_signature:expired", "history:after:success:expired",
-           "history:after:expired_long_ago:expired"]
+           "history:after:expired_long_ago:expired", "process_time_zone:west_of_utc:expired", "process_time_zone:west_of_utc:unexpired_ok",
+           "process_time_zone:east_of_utc:expired", "process_time_zone:east_of_utc:unexpired_ok"]
     return common.finish(
         PROP, ctx.tier, ctx.seed, res, t0=ctx.t0,
         rule="valid scenarios with the top-level or a delegated layout's expiry at now+δ (δ from -100y to +100y, dense "
